@@ -18,13 +18,14 @@ TICK = W.TICK
 
 
 class E2E:
-    def __init__(self, cimpl, simpl, scfg=None, ccfg=None, seed=0, latency=0, http_latency=0):
+    def __init__(self, cimpl, simpl, scfg=None, ccfg=None, seed=0, latency=0, http_latency=0,
+                 preempt=False):
         self.cimpl, self.simpl = cimpl, simpl
         self.latency = latency        # ticks a websocket frame spends on the wire
         self.http_latency = http_latency   # ticks an HTTP request / response spends on the wire
         self.wire = []                # (due time, n, fn)
         self._n = 0
-        self.hub = hubmod.Hub(seed=seed)
+        self.hub = hubmod.Hub(seed=seed, preempt=preempt)
         hubmod.set_hub(self.hub)
         self.loop = vloop.VLoop()
         self.log = []
@@ -348,10 +349,11 @@ class _AioWsE2E(CW._AioWs):
 
 # ---- conversation driver ---------------------------------------------------------------------
 
-def run_conversation(cimpl, simpl, scfg, script, seed=0, latency=0, http_latency=0):
+def run_conversation(cimpl, simpl, scfg, script, seed=0, latency=0, http_latency=0, preempt=False):
     """script ops: connect(tr) csend(k) ssend(k) cdisc sdisc tick(t).  Returns the E2E trace:
     a list of steps [{'op', 'ev': [application events of both sides, in order]}] + facts."""
-    e = E2E(cimpl, simpl, scfg, seed=seed, latency=latency, http_latency=http_latency)
+    e = E2E(cimpl, simpl, scfg, seed=seed, latency=latency, http_latency=http_latency,
+            preempt=preempt)
     steps = []
     facts = {'pair': cimpl + '-client/' + simpl + '-server', 'scfg': dict(e.sw.cfg)}
     nc = ns = 0
@@ -365,15 +367,21 @@ def run_conversation(cimpl, simpl, scfg, script, seed=0, latency=0, http_latency
                 a = {'tr': op['tr']}
             elif k == 'csend':
                 acc = []
-                for _ in range(op['k']):
-                    if e.cw.client.state != 'connected':
-                        # send() on a client that is not connected is a no-op; it is exercised
-                        # by C08, here only accepted messages are numbered
-                        continue
-                    nc += 1
-                    acc.append(nc)
-                    e.cw.app_send('m%d' % nc)
-                    e.quiesce() if op.get('spaced') else None
+                if op.get('spaced'):
+                    for _ in range(op['k']):
+                        if e.cw.client.state != 'connected':
+                            # send() on a client that is not connected is a no-op; it is
+                            # exercised by C08, here only accepted messages are numbered
+                            continue
+                        nc += 1
+                        acc.append(nc)
+                        e.cw.app_send('m%d' % nc)
+                        e.quiesce()
+                else:
+                    # one application thread sends them in a row
+                    e.cw.app_burst(op['k'], nc + 1, acc)
+                    e.quiesce()
+                    nc += len(acc)
                 a = {'k': op['k'], 'acc': acc}
             elif k == 'ssend':
                 slot = max(e.sw.sids) if e.sw.sids else None
@@ -399,6 +407,14 @@ def run_conversation(cimpl, simpl, scfg, script, seed=0, latency=0, http_latency
                     acc = list(range(before + 1, e.sw.sent.get(slot, 0) + 1))
                 a = {'k': op['k'], 'acc': acc}
                 k = 'ssend'
+            elif k == 'csendcdisc':
+                # one application thread: k sends, then disconnect(); the write loop may be busy
+                # with a request when disconnect() runs (on a pre-emptive hub they overlap)
+                acc = []
+                e.cw.app_burst(op['k'], nc + 1, acc, then_disconnect=True)
+                e.quiesce()
+                nc += len(acc)
+                a = {'k': op['k'], 'acc': acc}
             elif k == 'cdisc':
                 e.cw.app_disconnect()
             elif k == 'sdisc':
